@@ -27,7 +27,7 @@ META = {
         "selector driven: the schedule is enumerated by the solver's forking; each path runs concretely",
         "fullcall: 2 real threads sharing ONE cold XmlContext and ONE XmlParser / JsonParser / TreeParser / XmlSerializer / JsonSerializer instance; thread A (one complete parse / render call of a pool document) is suspended at "
         "its k-th line event inside the xsdata package, k a symbolic integer over EVERY line boundary of the call (1k-6k per call, also inside comprehensions, sort keys and nested calls); thread B then runs one complete call; A resumes. "
-        "Both results must equal the results of the calls run alone on fresh instances. quick: 6 x 5 operation pairs with 11 loaded model classes; thorough: the quick pairs plus 102 x 2 pairs with all harness classes loaded",
+        "Both results must equal the results of the calls run alone on fresh instances. quick: 5 x 4 operation pairs (+ 3 XInclude file-route pairs) with 11 loaded model classes; thorough: the quick pairs plus 102 x 2 pairs with all harness classes loaded",
     ],
     "outside": ["preemption inside a statement", "more than 2 threads, more preemptions", "the parsers' per-call state (not shared by design)", "full parse / serialize calls with more than one preemption (fullcall explores exactly one suspension of A with B atomic; finer interleavings only for the lowered context / XmlVar API)", "file routes other than from_path with XInclude on two directories"],
     "stubs": ["XmlContext.get_subclasses(object) iterates a pool of model classes (the set of loaded classes is environment)", "coroutine lowering (sched/__init__.py) stands for thread preemption at statement boundaries"],
@@ -397,8 +397,8 @@ PRE = {}
 EXPLAIN = {"interleave": replay_real, "fullcall": explain_full}
 
 
-FULL_QUICK_A = ["xp:holder", "xpn:holder", "xp:unionmodels", "xp:wild", "xs:holder", "jpn:holder"]
-FULL_QUICK_B = ["xp:holder", "xp:badint", "xp:wild", "jpn:holder", "xp:unionmodels"]
+FULL_QUICK_A = ["xp:holder", "xpn:holder", "xp:unionmodels", "xs:holder", "jpn:holder"]
+FULL_QUICK_B = ["xp:holder", "xp:badint", "xp:wild", "jpn:holder"]
 FULL_FILE_PAIRS = [("xi_lxml:alpha", "xi_lxml:beta"), ("xi_native:alpha", "xi_native:beta"), ("xi_native:beta", "xi_lxml:alpha")]
 FULL_THOROUGH_B = ["xp:holder", "xp:badint"]
 
